@@ -6,6 +6,7 @@ namespace QtVerif.Core
 theorem TExpr.eval_frame (e : TExpr) (v v' : View) (h : ∀ q, q ∈ e.deps → v q = v' q) : e.eval v = e.eval v' := by
   induction e with
   | lit k => rfl
+  | una => rfl
   | port q => simp [TExpr.eval, h q (by simp [TExpr.deps])]
   | op2 o a b iha ihb =>
     cases o <;> simp only [TExpr.eval, iha (fun q hq => h q (by simp [TExpr.deps, hq])),
